@@ -36,6 +36,8 @@ def meta(tier, seed):
                    "test_size": [0.34, 0.5] if tier == "quick" else [0.25, 0.34, 0.5], "batch_size": "0..|test|",
                    "kinds": ["%s/%s" % k for k in KINDS],
                    "n_jobs": "1; additionally 2 (joblib model) for eg0/knn, ucb/rad, ucb/lsh",
+                   "reward_level": "rewards in {0,1,2}; additionally 2**20 + {0,1,2} for eg0/none, ucb/rad, eg0/knn (sums exact "
+                                   "in double precision, so the 1e-9 comparison asks for no more than a two-pass spread)",
                    "companions": "ucb/rad and eg0/knn additionally as the second bandit after %r" % sorted(COMPANIONS)},
         "assumptions": ["LSH neighbourhood statistics reported by the simulator are taken as input (C11 and C15 cover LSH)"],
     }
@@ -57,6 +59,11 @@ def shards(tier, seed):
     for ln, nn in (("eg0", "knn"), ("ucb", "rad"), ("ucb", "lsh")):
         for pattern in ("alt", "blocks", "late2"):
             out.append({"ln": ln, "nn": nn, "pattern": pattern, "tier": tier, "seed": 71 + seed, "n_jobs": 2})
+    # rewards at a high level (2**20 + {0, 1, 2}: every sum exact in double precision): the reported spread must be
+    # that of the rewards, not what is left of it after cancellation
+    for ln, nn in (("eg0", "none"), ("ucb", "rad"), ("eg0", "knn")):
+        for pattern in ("alt", "blocks", "late2"):
+            out.append({"ln": ln, "nn": nn, "pattern": pattern, "tier": tier, "seed": 71 + seed, "level": 2 ** 20})
     return A.heavy_first(out)
 
 
@@ -295,13 +302,15 @@ def _run_shard(shard):
         dec, rew, X = data3(n, shard["pattern"])
         if ln == "ts":
             rew = [r % 2 for r in rew]
+        if shard.get("level"):
+            rew = [shard["level"] + r for r in rew]
         for params in param_space(tier, n, shard["seed"]):
             res = judge(cfg, dec, rew, X, params, shard.get("companion"))
             if res is None:
                 acc.skip("batch size rejected by the Simulator (larger than its bound)")
                 continue
             acc.traces += 1
-            key = (ln, nn, n, shard["pattern"], str(params), shard.get("companion"), shard.get("n_jobs", 1))
+            key = (ln, nn, n, shard["pattern"], str(params), shard.get("companion"), shard.get("n_jobs", 1), shard.get("level", 0))
             acc.state(key)
             if isinstance(res, list):
                 msgs, info = res, {}
